@@ -262,6 +262,22 @@ def run(rep, tier, seed):
                                   f"({len(np.asarray(ref.T))} vs {len(np.asarray(alt.T))} returned times, last state {np.asarray(ref.Y)[-1]} vs {np.asarray(alt.Y)[-1]})"))
             except Exception as ex:  # noqa
                 rep.notes.append(f"dtype probe {name}/{what}: {type(ex).__name__}: {str(ex)[:80]}")
+    # ---- the same for the fixed-step integrators on a span far from the origin, where single precision resolves 6e-5 only
+    for name in ("backward_euler", "implicit_trapezoid", "fdae_solver"):
+        kind, call = kinds[name]
+        try:
+            o = dict(step_size=1e-2, ite_tol=1e-10)
+            mk2 = (lambda: factories["fdae"]()) if name == "fdae_solver" else (lambda: _int_dae())
+            st = np.array([1.0]) if name == "fdae_solver" else np.array([1.0, 3.0])
+            ref = quiet(call, mk2(), np.array([1000.0, 1000.5]), st.copy(), Opt(**o))
+            alt = quiet(call, mk2(), np.array([1000, 1000.5], dtype=np.float32), st.copy(), Opt(**o))
+            ncalls += 2
+            if res_digest(ref) != res_digest(alt):
+                fails.append((dict(history=[dict(solver=name, arguments="tspan float64 [1000, 1000.5]"), dict(solver=name, arguments="tspan float32 [1000, 1000.5]")], call_index=1),
+                              f"{name} with the time span given as a float32 array of equal values returns a different result "
+                              f"({len(np.asarray(ref.T))} vs {len(np.asarray(alt.T))} returned times, last time {np.asarray(ref.T)[-1]!r} vs {np.asarray(alt.T)[-1]!r})"))
+        except Exception as ex:  # noqa
+            rep.notes.append(f"dtype probe {name}/float32 span: {type(ex).__name__}: {str(ex)[:80]}")
     # ---- the result never aliases the caller's start: refilling the start array for the next run must not change a result
     for name in ("nr_method", "continuous_nr", "lm", "sicnm"):
         kind, call = kinds[name]
